@@ -204,6 +204,10 @@ func aolRules(p *Prog, r *Report, clause string, want func(tag string) bool) *ao
 		}
 	}
 
+	// ---- list accessors walk their whole family (export, listings and counters see every entry) ----
+	if want("genesis") || want("family") {
+		checkAolListAccessorsWholeFamily(p, r, kp, m)
+	}
 	// ---- genesis import stores entries untransformed ---------------------------------------------
 	if want("genesis") && initGen != nil {
 		n := 0
@@ -525,3 +529,56 @@ func aolRules(p *Prog, r *Report, clause string, want func(tag string) bool) *ao
 }
 
 func instrPos(p *Prog, in ssa.Instruction) string { return p.Pos(in.Pos()) }
+
+
+// checkAolListAccessorsWholeFamily: a GetAll* accessor iterates its family's prefix store without bounds of its own — the prefix
+// iterator with an empty prefix, or Iterator(nil, nil). A byte bound such as [0x00, 0xFF) leaves out the keys that start with
+// 0xFF: a composite key's first byte is its first component's length, and 255 is a legal length.
+func checkAolListAccessorsWholeFamily(p *Prog, r *Report, kp func(string, string) string, m *aolModel) {
+	emptyBytes := func(t *Term) bool {
+		if t == nil {
+			return false
+		}
+		switch {
+		case t.Op == "const" && t.Name == "nil":
+			return true
+		case t.Op == "slicelit" && len(t.Args) == 0:
+			return true
+		case t.Op == "makeslice":
+			return len(t.Args) > 0 && t.Args[0].Op == "const" && t.Args[0].Name == "0"
+		}
+		return false
+	}
+	n := 0
+	for _, fam := range append([]string{"Owner", "Topic", "Writer", "Record"}, m.extraFamilies()...) {
+		for _, a := range m.byFamily[fam] {
+			if a.Op != "Iterator" {
+				continue
+			}
+			cc := a.SO.Instr.Common()
+			o := NewOrigin(p, a.SO.Fn)
+			name := calleeName(cc)
+			ok, what := false, ""
+			switch {
+			case strings.HasSuffix(name, "types.KVStorePrefixIterator") || strings.HasSuffix(name, "types.KVStoreReversePrefixIterator"):
+				t := o.Of(cc.Args[1])
+				ok, what = emptyBytes(t), "prefix "+t.String()
+			case strings.HasSuffix(name, ".Iterator") || strings.HasSuffix(name, ".ReverseIterator"):
+				args := cc.Args
+				if !cc.IsInvoke() && len(args) == 3 {
+					args = args[1:]
+				}
+				if len(args) == 2 {
+					s0, s1 := o.Of(args[0]), o.Of(args[1])
+					ok, what = emptyBytes(s0) && emptyBytes(s1), "bounds ["+s0.String()+", "+s1.String()+")"
+				}
+			default:
+				continue // pagination helpers walk the store they are handed
+			}
+			n++
+			r.Check(ok, kp("LOOP", FuncName(a.Fn)+"#whole-family"), "a list accessor iterates its whole family: no bounds of its own inside the family's prefix store", p.Pos(a.SO.Instr.Pos()),
+				what, fmt.Sprintf("%s iterates %s with %s: entries outside these bounds (a key whose first length byte is 0xFF, say) are never listed — they are missing from the export and from what is counted", FuncName(a.Fn), fam, what))
+		}
+	}
+	r.Count("aol-list-accessor-iterators", n)
+}
